@@ -1145,7 +1145,7 @@ fn sub_dwp(tier: Tier) -> Sub {
 }
 
 pub fn subs(tier: Tier) -> Vec<Sub> {
-    let mut v = vec![sub_find_degenerate(), sub_find_exhaustive(2, 1), sub_find_exhaustive(4, 3), sub_find_exhaustive(8, tier.pick(2, 3)), sub_find_chains(tier), sub_sections(), sub_dwp(tier)];
+    let mut v = vec![sub_find_degenerate(), sub_find_exhaustive(2, 1), sub_find_exhaustive(4, 3), sub_find_exhaustive(8, tier.pick(2, 3)), sub_find_chains(tier), sub_sections(), sub_dwp(Tier::Thorough)]; // dwp: thorough bound in both tiers (< 1 s)
     if tier == Tier::Thorough {
         v.push(sub_find_exhaustive(16, 2));
     }
